@@ -47,7 +47,7 @@ func TestC10(t *testing.T) {
 			slots = append(slots, "blocked", "blocked", "at_completion")
 		}
 		slot := slots[uniform(rt, "slot", len(slots))]
-		kind := []string{"cancel", "timeout", "deadline", "parent"}[rapid.IntRange(0, 3).Draw(rt, "kind")]
+		kind := []string{"cancel", "timeout", "deadline", "parent", "timeout_cancelled_early", "deadline_cancelled_early"}[rapid.IntRange(0, 5).Draw(rt, "kind")]
 		callerDL := rapid.Bool().Draw(rt, "caller_deadline")
 		eps := time.Duration(rapid.IntRange(1, 1000).Draw(rt, "eps_us")) * time.Microsecond
 		var tc time.Duration // context end time for timer-driven slots
@@ -65,6 +65,9 @@ func TestC10(t *testing.T) {
 		case "expire_after":
 			tc = T1 + eps
 		}
+		// (every draw happens outside the bubble: rapid aborts a draw by panicking, which only
+		// the property's own goroutine recovers)
+		far := time.Duration(rapid.IntRange(1, 3600).Draw(rt, "far_s")) * time.Second
 		runtime.GOMAXPROCS(procs)
 		var viol string
 		synctest.Test(t, func(t *testing.T) {
@@ -97,6 +100,16 @@ func TestC10(t *testing.T) {
 			var cancel context.CancelFunc
 			timerDriven := slot == "blocked" || slot == "at_completion" || slot == "expire_after"
 			switch {
+			case kind == "timeout_cancelled_early" || kind == "deadline_cancelled_early":
+				// a context that has a (far) deadline of its own but is cancelled before it
+				if kind == "timeout_cancelled_early" {
+					ctx, cancel = context.WithTimeout(context.Background(), tc+T1+far)
+				} else {
+					ctx, cancel = context.WithDeadline(context.Background(), start.Add(tc+T1+far))
+				}
+				if timerDriven {
+					go func() { time.Sleep(tc); cancel() }()
+				}
 			case timerDriven && kind == "timeout":
 				ctx, cancel = context.WithTimeout(context.Background(), tc)
 			case timerDriven && kind == "deadline":
